@@ -343,7 +343,15 @@ func (c hostileCase) menus() ([]payloadDef, []linkDef) {
 	return otherPayloads, otherLinkMenu
 }
 
-var hostileQueries = []string{"", "0", "00", "a", "x", "yy", "00a", "Ab", "q", "nope"}
+var hostileQueries = func() []string {
+	q := []string{"", "0", "00", "a", "x", "yy", "00a", "Ab", "q", "nope"}
+	// one name per bucket of the two smallest fanouts (top 4 hash bits 0..15):
+	// whatever the bitfield claims, every bucket of the root is probed
+	for b := uint64(0); b < 16; b++ {
+		q = append(q, gen.NameWithHash(b<<60|0x0123456789ABCDE))
+	}
+	return q
+}()
 
 // run builds the root block, reifies it lazily and with preload and exercises
 // every node operation under recover() and a step budget.
